@@ -3,9 +3,9 @@
    established initially and preserved by every operation, and every result agrees up to
    the slack the property grants for content-free repositories. *)
 From Coq Require Import String.
-From OCI Require Import Model.Mem Model.MemSpec Proofs.MemBasics Proofs.MemInv Proofs.MemSpecFacts.
-
-Definition bmd (b : blob) : bytes * bytes := (b_media b, b_data b).
+From Coq Require Import Lia.
+From OCI Require Import Model.Mem Model.MemSpec Model.MemRel Proofs.MemBasics Proofs.MemInv Proofs.MemSpecFacts
+  Proofs.MemReach.
 Definition iup (st : state) (r id : bytes) : option N :=
   match get_repo st r with Some rp => alookup id (uploads rp) | None => None end.
 
@@ -187,3 +187,988 @@ Proof.
   - rewrite <- (rel_man _ _ HR) in H. unfold iman in H. destruct (get_repo st r); cbn in *; congruence.
   - rewrite <- (rel_tag _ _ HR) in H. unfold itag in H. destruct (get_repo st r); cbn in *; congruence.
 Qed.
+
+(* a repository the implementation does not know holds no content *)
+Lemma rel_repo_none st sp r : Rel st sp -> get_repo st r = None -> has_content (slog sp) r = false.
+Proof.
+  intros HR H. destruct (has_content (slog sp) r) eqn:E; [|reflexivity].
+  exfalso. eapply has_content_repo; eauto.
+Qed.
+
+(* ---- comparison of results: reflexivity facts ---- *)
+Lemma desc_eqb_refl x : desc_eqb x x = true.
+Proof. now apply desc_eqb_eq. Qed.
+Lemma list_eqb_beqb_refl l : list_eqb beqb l l = true.
+Proof. now apply (list_eqb_eq beqb beqb_eq). Qed.
+Lemma list_eqb_desc_refl l : list_eqb desc_eqb l l = true.
+Proof. now apply (list_eqb_eq desc_eqb desc_eqb_eq). Qed.
+Lemma res_same_refl a : res_same a a = true.
+Proof.
+  destruct a; cbn; rewrite ?desc_eqb_refl, ?beqb_refl, ?list_eqb_beqb_refl, ?list_eqb_desc_refl,
+    ?N.eqb_refl, ?Z.eqb_refl; try reflexivity;
+    unfold opt_code_eqb; destruct e; cbn; auto; now apply ecode_eqb_eq.
+Qed.
+Lemma code_ok_refl c : code_ok c c = true.
+Proof. unfold code_ok. destruct c; try reflexivity. cbn. apply beqb_refl. Qed.
+Lemma result_match_refl r : definite r -> result_match r r = true.
+Proof.
+  destruct r; cbn; intros H; [apply res_same_refl | apply code_ok_refl | reflexivity | now elim H].
+Qed.
+Lemma result_match_err e e' : e_code e = e_code e' -> result_match (Err e) (Err e') = true.
+Proof. cbn. intros ->. apply code_ok_refl. Qed.
+Lemma result_match_plain e what : result_match (Err e) (Err (e_plain what)) = true.
+Proof. reflexivity. Qed.
+
+Section Refine.
+  Variable hash : bytes -> bytes.
+  Variable valid_digest : bytes -> bool.
+  Variable valid_repo : bytes -> bool.
+  Variable valid_tag : bytes -> bool.
+  Variable decode_image : bytes -> option image_manifest.
+  Variable decode_index : bytes -> option index_manifest.
+  Variable cfg : config.
+
+  Local Notation step := (step hash valid_digest valid_repo valid_tag decode_image decode_index cfg).
+  Local Notation sstep := (sstep hash valid_digest valid_repo valid_tag decode_image decode_index cfg).
+  Local Notation Inv := (Inv hash decode_image decode_index).
+  Local Notation blob_desc := (blob_desc hash).
+  Local Notation make_repo := (make_repo valid_repo).
+
+  (* the implementation's step and the reference step on related states: related states
+     again, and an answer the reference registry accepts *)
+  Definition step_ok (l : list event) (o : op) (p : state * result) (q : sstate * result) : Prop :=
+    Rel (fst p) (fst q) /\ res_ok l o (snd p) (snd q) = true.
+
+  Lemma blob_desc_sdesc b d : hash (b_data b) = d -> blob_desc b = sdesc (b_media b) d (b_data b).
+  Proof. intros <-. reflexivity. Qed.
+
+  (* Registry.blobForDigest / manifestForDigest against the reference lookups *)
+  Lemma blob_for_sim st sp r d :
+    Rel st sp -> Inv st ->
+    match blob_for st r d with
+    | Ok b => sblob (slog sp) r d = Some (bmd b) /\ hash (b_data b) = d /\ iblob st r d = Some b
+    | Err e => sblob (slog sp) r d = None /\
+               ((e = e_name_unknown /\ get_repo st r = None) \/ (e = e_blob_unknown /\ get_repo st r <> None))
+    | _ => False
+    end.
+  Proof.
+    intros HR HI. unfold blob_for. destruct (get_repo st r) as [rp|] eqn:ER.
+    - destruct (alookup d (blobs rp)) as [b|] eqn:EL.
+      + assert (Hi : iblob st r d = Some b) by (unfold iblob; now rewrite ER).
+        repeat split; [eapply rel_blob_some; eauto | eapply inv_iblob; eauto | exact Hi].
+      + split; [|right; split; [reflexivity | discriminate]].
+        eapply rel_blob_none; eauto. unfold iblob. now rewrite ER.
+    - split; [|left; auto]. eapply rel_blob_none; eauto. unfold iblob. now rewrite ER.
+  Qed.
+
+  Lemma manifest_for_sim st sp r d :
+    Rel st sp -> Inv st ->
+    match manifest_for st r d with
+    | Ok b => sman (slog sp) r d = Some (bmd b) /\ hash (b_data b) = d /\ iman st r d = Some b
+    | Err e => sman (slog sp) r d = None /\
+               ((e = e_name_unknown /\ get_repo st r = None) \/ (e = e_manifest_unknown /\ get_repo st r <> None))
+    | _ => False
+    end.
+  Proof.
+    intros HR HI. unfold manifest_for. destruct (get_repo st r) as [rp|] eqn:ER.
+    - destruct (alookup d (manifests rp)) as [b|] eqn:EL.
+      + assert (Hi : iman st r d = Some b) by (unfold iman; now rewrite ER).
+        repeat split; [eapply rel_man_some; eauto | eapply inv_iman; eauto | exact Hi].
+      + split; [|right; split; [reflexivity | discriminate]].
+        eapply rel_man_none; eauto. unfold iman. now rewrite ER.
+    - split; [|left; auto]. eapply rel_man_none; eauto. unfold iman. now rewrite ER.
+  Qed.
+
+  (* "unknown" answers: NAME_UNKNOWN from an absent repository is the reference answer;
+     X_UNKNOWN from a present one is the reference answer when the repository holds
+     content and the allowed empty answer when it does not *)
+  Lemma unknown_ok st sp r e c what :
+    Rel st sp ->
+    (e = e_name_unknown /\ get_repo st r = None) \/ (e_code e = c /\ get_repo st r <> None) ->
+    result_match (Err e) (Err (unknown_or (slog sp) r c what)) = true \/
+    (has_content (slog sp) r = false /\ e_code e = c).
+  Proof.
+    intros HR [[-> Hn]|[Hc Hn]]; unfold unknown_or.
+    - rewrite (rel_repo_none _ _ _ HR Hn). now left.
+    - destruct (has_content (slog sp) r); [left | right; auto].
+      apply result_match_err. exact Hc.
+  Qed.
+
+  (* finishing an "unknown" answer *)
+  Lemma finish_unknown l o rn e q c :
+    op_repo o = Some rn ->
+    (forall s, o <> Repositories s) ->
+    (empty_answer o (Err e) = true <-> (e_code e = c \/ e_code e = NAME_UNKNOWN)) ->
+    result_match (Err e) q = true \/ (has_content l rn = false /\ e_code e = c) ->
+    res_ok l o (Err e) q = true.
+  Proof.
+    intros Ho Hn He H.
+    assert (res_ok l o (Err e) q = result_match (Err e) q || slack l o (Err e)) as ->.
+    { destruct o; reflexivity. }
+    unfold slack. rewrite Ho. destruct H as [->|[-> Hc]]; [reflexivity|].
+    cbn [negb andb]. apply orb_true_iff. right. apply He. now left.
+  Qed.
+
+  Lemma res_ok_match l o r q :
+    (forall s, o <> Repositories s) -> result_match r q = true -> res_ok l o r q = true.
+  Proof.
+    intros Hn H.
+    assert (res_ok l o r q = result_match r q || slack l o r) as ->.
+    { destruct o; try reflexivity. now elim (Hn start). }
+    now rewrite H.
+  Qed.
+
+  Lemma blob_codes e : ecode_eqb (e_code e) BLOB_UNKNOWN || ecode_eqb (e_code e) NAME_UNKNOWN = true <->
+                       (e_code e = BLOB_UNKNOWN \/ e_code e = NAME_UNKNOWN).
+  Proof. rewrite orb_true_iff, !ecode_eqb_eq. tauto. Qed.
+  Lemma man_codes e : ecode_eqb (e_code e) MANIFEST_UNKNOWN || ecode_eqb (e_code e) NAME_UNKNOWN = true <->
+                      (e_code e = MANIFEST_UNKNOWN \/ e_code e = NAME_UNKNOWN).
+  Proof. rewrite orb_true_iff, !ecode_eqb_eq. tauto. Qed.
+
+  Lemma blob_unknown_cases st r e :
+    (e = e_name_unknown /\ get_repo st r = None) \/ (e = e_blob_unknown /\ get_repo st r <> None) ->
+    (e = e_name_unknown /\ get_repo st r = None) \/ (e_code e = BLOB_UNKNOWN /\ get_repo st r <> None).
+  Proof. intros [H|[-> H]]; auto. Qed.
+  Lemma man_unknown_cases st r e :
+    (e = e_name_unknown /\ get_repo st r = None) \/ (e = e_manifest_unknown /\ get_repo st r <> None) ->
+    (e = e_name_unknown /\ get_repo st r = None) \/ (e_code e = MANIFEST_UNKNOWN /\ get_repo st r <> None).
+  Proof. intros [H|[-> H]]; auto. Qed.
+
+  Lemma read_ok l o de data :
+    (forall s, o <> Repositories s) -> res_ok l o (Ok (RRead de data)) (Ok (RRead de data)) = true.
+  Proof. intros Hn. apply res_ok_match; [exact Hn|]. apply result_match_refl. discriminate. Qed.
+  Lemma desc_ok l o de :
+    (forall s, o <> Repositories s) -> res_ok l o (Ok (RDesc de)) (Ok (RDesc de)) = true.
+  Proof. intros Hn. apply res_ok_match; [exact Hn|]. apply result_match_refl. discriminate. Qed.
+
+  (* ---- reads ---- *)
+  Lemma sim_GetBlob st sp r d :
+    Rel st sp -> Inv st -> step_ok (slog sp) (GetBlob r d) (step st (GetBlob r d)) (sstep sp (GetBlob r d)).
+  Proof.
+    intros HR HI. unfold step_ok. cbn [Mem.step MemSpec.sstep fst snd]. split; [exact HR|].
+    pose proof (blob_for_sim st sp r d HR HI) as H.
+    destruct (blob_for st r d) as [b|e| |]; cbn [rbind]; try contradiction.
+    - destruct H as (-> & Hh & _). cbn [bmd]. rewrite (blob_desc_sdesc b d Hh).
+      apply read_ok. discriminate.
+    - destruct H as (-> & H). apply blob_unknown_cases in H.
+      eapply finish_unknown; [reflexivity | discriminate | apply blob_codes |].
+      eapply unknown_ok; eauto.
+  Qed.
+
+  Lemma sim_GetBlobRange st sp r d o0 o1 :
+    Rel st sp -> Inv st ->
+    step_ok (slog sp) (GetBlobRange r d o0 o1) (step st (GetBlobRange r d o0 o1)) (sstep sp (GetBlobRange r d o0 o1)).
+  Proof.
+    intros HR HI. unfold step_ok. cbn [Mem.step MemSpec.sstep fst snd]. split; [exact HR|].
+    pose proof (blob_for_sim st sp r d HR HI) as H.
+    destruct (blob_for st r d) as [b|e| |]; cbn [rbind]; try contradiction.
+    - destruct H as (-> & Hh & _). cbn [bmd]. rewrite (blob_desc_sdesc b d Hh).
+      destruct ((o0 <? 0)%Z || (o0 >? _)%Z).
+      + apply res_ok_match; [discriminate | reflexivity].
+      + apply read_ok. discriminate.
+    - destruct H as (-> & H). apply blob_unknown_cases in H.
+      eapply finish_unknown; [reflexivity | discriminate | apply blob_codes |].
+      eapply unknown_ok; eauto.
+  Qed.
+
+  Lemma sim_ResolveBlob st sp r d :
+    Rel st sp -> Inv st -> step_ok (slog sp) (ResolveBlob r d) (step st (ResolveBlob r d)) (sstep sp (ResolveBlob r d)).
+  Proof.
+    intros HR HI. unfold step_ok. cbn [Mem.step MemSpec.sstep fst snd]. split; [exact HR|].
+    pose proof (blob_for_sim st sp r d HR HI) as H.
+    destruct (blob_for st r d) as [b|e| |]; cbn [rbind]; try contradiction.
+    - destruct H as (-> & Hh & _). cbn [bmd]. rewrite (blob_desc_sdesc b d Hh).
+      apply desc_ok. discriminate.
+    - destruct H as (-> & H). apply blob_unknown_cases in H.
+      eapply finish_unknown; [reflexivity | discriminate | apply blob_codes |].
+      eapply unknown_ok; eauto.
+  Qed.
+
+  Lemma sim_GetManifest st sp r d :
+    Rel st sp -> Inv st -> step_ok (slog sp) (GetManifest r d) (step st (GetManifest r d)) (sstep sp (GetManifest r d)).
+  Proof.
+    intros HR HI. unfold step_ok. cbn [Mem.step MemSpec.sstep fst snd]. split; [exact HR|].
+    pose proof (manifest_for_sim st sp r d HR HI) as H.
+    destruct (manifest_for st r d) as [b|e| |]; cbn [rbind]; try contradiction.
+    - destruct H as (-> & Hh & _). cbn [bmd]. rewrite (blob_desc_sdesc b d Hh).
+      apply read_ok. discriminate.
+    - destruct H as (-> & H). apply man_unknown_cases in H.
+      eapply finish_unknown; [reflexivity | discriminate | apply man_codes |].
+      eapply unknown_ok; eauto.
+  Qed.
+
+  Lemma sim_ResolveManifest st sp r d :
+    Rel st sp -> Inv st ->
+    step_ok (slog sp) (ResolveManifest r d) (step st (ResolveManifest r d)) (sstep sp (ResolveManifest r d)).
+  Proof.
+    intros HR HI. unfold step_ok. cbn [Mem.step MemSpec.sstep fst snd]. split; [exact HR|].
+    pose proof (manifest_for_sim st sp r d HR HI) as H.
+    destruct (manifest_for st r d) as [b|e| |]; cbn [rbind]; try contradiction.
+    - destruct H as (-> & Hh & _). cbn [bmd]. rewrite (blob_desc_sdesc b d Hh).
+      apply desc_ok. discriminate.
+    - destruct H as (-> & H). apply man_unknown_cases in H.
+      eapply finish_unknown; [reflexivity | discriminate | apply man_codes |].
+      eapply unknown_ok; eauto.
+  Qed.
+
+  (* Registry.repo + tag lookup *)
+  Lemma tag_sim st sp r t :
+    Rel st sp ->
+    match get_repo st r with
+    | None => stag (slog sp) r t = None
+    | Some rp => alookup t (tags rp) = stag (slog sp) r t
+    end.
+  Proof.
+    intros HR. pose proof (rel_tag _ _ HR r t) as H. unfold itag in H.
+    destruct (get_repo st r); auto.
+  Qed.
+
+  Lemma sim_ResolveTag st sp r t :
+    Rel st sp -> Inv st -> step_ok (slog sp) (ResolveTag r t) (step st (ResolveTag r t)) (sstep sp (ResolveTag r t)).
+  Proof.
+    intros HR HI. unfold step_ok. cbn [Mem.step MemSpec.sstep fst snd]. split; [exact HR|].
+    pose proof (tag_sim st sp r t HR) as H.
+    destruct (get_repo st r) as [rp|] eqn:ER.
+    - rewrite H. destruct (stag (slog sp) r t) as [de|].
+      + apply desc_ok. discriminate.
+      + eapply finish_unknown; [reflexivity | discriminate | apply man_codes |].
+        eapply unknown_ok; [exact HR|]. right. split; [reflexivity | congruence].
+    - rewrite H. eapply finish_unknown; [reflexivity | discriminate | apply man_codes |].
+      eapply unknown_ok; [exact HR|]. left. auto.
+  Qed.
+
+  Lemma sim_GetTag st sp r t :
+    Rel st sp -> Inv st -> step_ok (slog sp) (GetTag r t) (step st (GetTag r t)) (sstep sp (GetTag r t)).
+  Proof.
+    intros HR HI. unfold step_ok. cbn [Mem.step MemSpec.sstep fst snd]. split; [exact HR|].
+    pose proof (tag_sim st sp r t HR) as H.
+    destruct (get_repo st r) as [rp|] eqn:ER.
+    - rewrite H. destruct (stag (slog sp) r t) as [de|].
+      + pose proof (manifest_for_sim st sp r (d_digest de) HR HI) as Hm.
+        destruct (manifest_for st r (d_digest de)) as [b|e| |]; cbn [rbind]; try contradiction.
+        * destruct Hm as (-> & Hh & _). cbn [bmd]. rewrite (blob_desc_sdesc b _ Hh).
+          apply read_ok. discriminate.
+        * destruct Hm as (-> & [[_ Hn]|[-> _]]); [congruence|].
+          apply res_ok_match; [discriminate | reflexivity].
+      + eapply finish_unknown; [reflexivity | discriminate | apply man_codes |].
+        eapply unknown_ok; [exact HR|]. right. split; [reflexivity | congruence].
+    - rewrite H. eapply finish_unknown; [reflexivity | discriminate | apply man_codes |].
+      eapply unknown_ok; [exact HR|]. left. auto.
+  Qed.
+
+  (* ---- PushBlob ---- *)
+  Lemma sim_PushBlob st sp r de content :
+    Rel st sp -> Inv st ->
+    step_ok (slog sp) (PushBlob r de content) (step st (PushBlob r de content)) (sstep sp (PushBlob r de content)).
+  Proof.
+    intros HR HI. unfold step_ok. cbn [Mem.step MemSpec.sstep]. unfold check_descriptor.
+    destruct (valid_digest (d_digest de)); cbn [negb orb];
+      [|split; [exact HR | apply res_ok_match; [discriminate | reflexivity]]].
+    destruct (beqb (hash content) (d_digest de)); cbn [negb];
+      [|split; [exact HR | apply res_ok_match; [discriminate | reflexivity]]].
+    destruct (d_size de =? blen content)%Z; cbn [negb];
+      [|split; [exact HR | apply res_ok_match; [discriminate | reflexivity]]].
+    destruct (d_media de) as [|c m] eqn:EM;
+      [split; [exact HR | apply res_ok_match; [discriminate | reflexivity]]|].
+    cbn [beqb]. destruct (make_repo st r) as [st1|] eqn:EMR.
+    - pose proof (make_repo_some _ _ _ _ EMR) as (-> & Hne & _). cbn [negb fst snd].
+      split; [|apply desc_ok; discriminate].
+      apply (rel_set_blob st1 sp r (d_digest de) {| b_media := c :: m; b_data := content; b_subject := [] |});
+        [eapply rel_make_repo; eauto | exact Hne].
+    - apply make_repo_none in EMR. rewrite EMR. cbn [negb fst snd].
+      split; [exact HR | apply res_ok_match; [discriminate | reflexivity]].
+  Qed.
+
+  (* ---- upload sessions ---- *)
+  Lemma rel_new_upload st sp r rp id off nx :
+    Rel st sp -> get_repo st r = Some rp ->
+    Rel {| repos := aset r (rp_set_upload id (N.of_nat (length (bufs st))) rp) (repos st);
+           bufs := bufs st ++ [new_buffer r id off]; next_id := nx |}
+        {| slog := slog sp; sbufs := sbufs sp ++ [new_buffer r id off];
+           sups := (r, id, N.of_nat (length (sbufs sp))) :: sups sp; snext := nx |}.
+  Proof.
+    intros [A B C D E F] ER.
+    set (st' := {| repos := _; bufs := _; next_id := _ |}).
+    assert (Hg : forall r', get_repo st' r' =
+                   if beqb r' r then Some (rp_set_upload id (N.of_nat (length (bufs st))) rp) else get_repo st r').
+    { intros r'. unfold get_repo, st'; cbn. apply alookup_aset. }
+    constructor; cbn [slog sbufs sups snext]; intros.
+    - rewrite <- A. unfold iblob. rewrite Hg. destruct (beqb r0 r) eqn:B1; [|reflexivity].
+      apply beqb_eq in B1. subst. now rewrite ER.
+    - rewrite <- B. unfold iman. rewrite Hg. destruct (beqb r0 r) eqn:B1; [|reflexivity].
+      apply beqb_eq in B1. subst. now rewrite ER.
+    - rewrite <- C. unfold itag. rewrite Hg. destruct (beqb r0 r) eqn:B1; [|reflexivity].
+      apply beqb_eq in B1. subst. now rewrite ER.
+    - unfold st'; cbn. now rewrite D.
+    - reflexivity.
+    - cbn [sup]. rewrite <- F, <- D. unfold iup. rewrite Hg. destruct (beqb r0 r) eqn:B1; cbn [andb]; [|reflexivity].
+      apply beqb_eq in B1. subst. cbn [uploads rp_set_upload]. rewrite alookup_aset, ER.
+      destruct (beqb id0 id); reflexivity.
+  Qed.
+
+  Lemma sim_chunked st sp r id off o :
+    Rel st sp -> Inv st -> (forall s, o <> Repositories s) ->
+    step_ok (slog sp) o
+      (match make_repo st r with
+        | None => (st, Err e_name_invalid)
+        | Some st1 =>
+            match get_repo st1 r with
+            | None => (st1, Err e_name_invalid)
+            | Some rp =>
+                match alookup id (uploads rp) with
+                | Some i =>
+                    (with_buf st1 (N.to_nat i) (fun b =>
+                       {| u_repo := u_repo b; u_id := u_id b; u_buf := u_buf b; u_check := off;
+                          u_committed := u_committed b; u_desc := u_desc b; u_err := u_err b |}),
+                     Ok (RWriter i))
+                | None =>
+                    let id' := match id with [] => fresh_id (next_id st1) | _ => id end in
+                    let i := N.of_nat (length (bufs st1)) in
+                    ({| repos := aset r (rp_set_upload id' i rp) (repos st1);
+                        bufs := bufs st1 ++ [new_buffer r id' off];
+                        next_id := match id with [] => N.succ (next_id st1) | _ => next_id st1 end |},
+                     Ok (RWriter i))
+                end
+            end
+        end : state * result)
+      (if negb (valid_repo r) then (sp, Err e_name_invalid)
+        else
+          match sup (sups sp) r id with
+          | Some i =>
+              (with_sbuf sp (N.to_nat i) (fun b =>
+                 {| u_repo := u_repo b; u_id := u_id b; u_buf := u_buf b; u_check := off;
+                    u_committed := u_committed b; u_desc := u_desc b; u_err := u_err b |}),
+               Ok (RWriter i))
+          | None =>
+              let id' := match id with [] => fresh_id (snext sp) | _ => id end in
+              let i := N.of_nat (length (sbufs sp)) in
+              ({| slog := slog sp; sbufs := sbufs sp ++ [new_buffer r id' off];
+                  sups := (r, id', i) :: sups sp;
+                  snext := match id with [] => N.succ (snext sp) | _ => snext sp end |},
+               Ok (RWriter i))
+          end : sstate * result).
+  Proof.
+    intros HR HI Hn. unfold step_ok. destruct (make_repo st r) as [st1|] eqn:EMR.
+    - pose proof (make_repo_some _ _ _ _ EMR) as (-> & Hne & Hb & Hnx & _). cbn [negb].
+      pose proof (rel_make_repo _ _ _ _ _ HR EMR) as HR1.
+      destruct (get_repo st1 r) as [rp|] eqn:ER; [|congruence].
+      pose proof (rel_up _ _ HR1 r id) as HU. unfold iup in HU. rewrite ER in HU. rewrite <- HU.
+      destruct (alookup id (uploads rp)) as [i|]; cbn [fst snd].
+      + split; [now apply rel_with_buf | apply res_ok_match; [exact Hn | apply result_match_refl; discriminate]].
+      + rewrite <- (rel_next _ _ HR1), <- (rel_bufs _ _ HR1). split.
+        * rewrite (rel_bufs _ _ HR1) at 3. rewrite (rel_bufs _ _ HR1) at 3.
+          apply rel_new_upload; auto.
+        * apply res_ok_match; [exact Hn | apply result_match_refl; discriminate].
+    - apply make_repo_none in EMR. rewrite EMR. cbn [negb fst snd].
+      split; [exact HR | apply res_ok_match; [exact Hn | reflexivity]].
+  Qed.
+
+  Lemma sim_PushBlobChunked st sp r hint :
+    Rel st sp -> Inv st ->
+    step_ok (slog sp) (PushBlobChunked r hint) (step st (PushBlobChunked r hint)) (sstep sp (PushBlobChunked r hint)).
+  Proof. intros HR HI. apply (sim_chunked st sp r [] 0%Z); auto. discriminate. Qed.
+
+  Lemma sim_PushBlobChunkedResume st sp r id off hint :
+    Rel st sp -> Inv st ->
+    step_ok (slog sp) (PushBlobChunkedResume r id off hint)
+      (step st (PushBlobChunkedResume r id off hint)) (sstep sp (PushBlobChunkedResume r id off hint)).
+  Proof. intros HR HI. apply (sim_chunked st sp r id off); auto. discriminate. Qed.
+
+  (* ---- MountBlob ---- *)
+  Lemma sim_MountBlob st sp from to d :
+    Rel st sp -> Inv st ->
+    step_ok (slog sp) (MountBlob from to d) (step st (MountBlob from to d)) (sstep sp (MountBlob from to d)).
+  Proof.
+    intros HR HI. unfold step_ok. cbn [Mem.step MemSpec.sstep].
+    destruct (make_repo st to) as [st1|] eqn:EMR.
+    - pose proof (make_repo_some _ _ _ _ EMR) as (-> & Hne & _). cbn [negb].
+      pose proof (rel_make_repo _ _ _ _ _ HR EMR) as HR1.
+      pose proof (inv_make_repo _ _ _ _ _ _ _ HI EMR) as HI1.
+      pose proof (blob_for_sim st1 sp from d HR1 HI1) as H.
+      destruct (blob_for st1 from d) as [b|e| |]; try contradiction.
+      + destruct H as (-> & Hh & _). cbn [bmd fst snd]. split.
+        * apply (rel_set_blob st1 sp to d b HR1 Hne).
+        * rewrite (blob_desc_sdesc b d Hh). apply desc_ok. discriminate.
+      + destruct H as (-> & H). cbn [fst snd]. split; [exact HR1|]. apply blob_unknown_cases in H.
+        eapply finish_unknown; [reflexivity | discriminate | apply blob_codes |].
+        eapply unknown_ok; eauto.
+    - apply make_repo_none in EMR. rewrite EMR. cbn [negb fst snd].
+      split; [exact HR | apply res_ok_match; [discriminate | reflexivity]].
+  Qed.
+
+  (* ---- PushManifest ---- *)
+  Local Notation check_descriptor := (check_descriptor hash valid_digest).
+  Local Notation check_refs := (check_refs hash valid_digest).
+  Local Notation check_manifest := (check_manifest hash valid_digest decode_image decode_index).
+  Local Notation ref_wf := (ref_wf valid_digest).
+  Local Notation acceptable := (acceptable valid_digest decode_image decode_index).
+
+  Lemma check_descriptor_wf de : is_some (check_descriptor de None) = negb (ref_wf de).
+  Proof.
+    unfold Mem.check_descriptor, MemSpec.ref_wf.
+    destruct (valid_digest (d_digest de)); cbn [negb andb is_some]; [|reflexivity].
+    destruct ((d_size de =? 0)%Z && negb (beqb (d_digest de) EMPTY_HASH)); cbn [negb andb is_some]; [reflexivity|].
+    destruct (d_media de); reflexivity.
+  Qed.
+
+  Definition ref_ok (rp : repo) (kd : refkind * desc) : bool :=
+    ref_wf (snd kd) &&
+    match fst kd with
+    | KBlob => is_some (alookup (d_digest (snd kd)) (blobs rp))
+    | KManifest => is_some (alookup (d_digest (snd kd)) (manifests rp))
+    | KSubject => true
+    end.
+
+  Lemma check_refs_okb rp refs acc : is_some (check_refs rp refs acc) = forallb (ref_ok rp) refs.
+  Proof.
+    revert acc; induction refs as [|[k de] rest IH]; intros acc; cbn [Mem.check_refs forallb]; [reflexivity|].
+    unfold ref_ok at 1. cbn [fst snd]. pose proof (check_descriptor_wf de) as Hw.
+    destruct (check_descriptor de None); cbn in Hw.
+    - apply (f_equal negb) in Hw. rewrite negb_involutive in Hw. cbn in Hw. rewrite <- Hw. reflexivity.
+    - apply (f_equal negb) in Hw. rewrite negb_involutive in Hw. cbn in Hw. rewrite <- Hw. cbn [andb].
+      destruct k.
+      + apply IH.
+      + destruct (alookup (d_digest de) (blobs rp)); cbn [is_some andb]; [apply IH | reflexivity].
+      + destruct (alookup (d_digest de) (manifests rp)); cbn [is_some andb]; [apply IH | reflexivity].
+  Qed.
+
+  Lemma forallb_blob_refs rp l r L :
+    (forall d, is_some (alookup d (blobs rp)) = is_some (sblob l r d)) ->
+    forallb (ref_ok rp) (map (pair KBlob) L) =
+    forallb (fun de => ref_wf de && is_some (sblob l r (d_digest de))) L.
+  Proof.
+    intros Hb. induction L as [|de L IH]; cbn [map forallb]; [reflexivity|].
+    rewrite IH. unfold ref_ok. cbn [fst snd]. now rewrite Hb.
+  Qed.
+  Lemma forallb_man_refs rp l r L :
+    (forall d, is_some (alookup d (manifests rp)) = is_some (sman l r d)) ->
+    forallb (ref_ok rp) (map (pair KManifest) L) =
+    forallb (fun de => ref_wf de && is_some (sman l r (d_digest de))) L.
+  Proof.
+    intros Hb. induction L as [|de L IH]; cbn [map forallb]; [reflexivity|].
+    rewrite IH. unfold ref_ok. cbn [fst snd]. now rewrite Hb.
+  Qed.
+
+  (* checkManifest accepts exactly what the reference registry calls acceptable *)
+  Lemma check_manifest_acceptable rp l r media data :
+    (forall d, is_some (alookup d (blobs rp)) = is_some (sblob l r d)) ->
+    (forall d, is_some (alookup d (manifests rp)) = is_some (sman l r d)) ->
+    is_some (check_manifest rp media data) = acceptable l r media data.
+  Proof.
+    intros Hb Hm. unfold Mem.check_manifest, Mem.manifest_refs, MemSpec.acceptable.
+    destruct (beqb media MT_IMAGE).
+    - destruct (decode_image data) as [m|]; cbn [option_map]; [|reflexivity].
+      rewrite check_refs_okb. unfold image_refs.
+      replace (map (pair KBlob) (im_layers m) ++ [(KBlob, im_config m)] ++
+               match im_subject m with Some sd => [(KSubject, sd)] | None => [] end)
+        with (map (pair KBlob) (im_layers m ++ [im_config m]) ++
+              match im_subject m with Some sd => [(KSubject, sd)] | None => [] end)
+        by (rewrite map_app, <- app_assoc; reflexivity).
+      rewrite forallb_app, (forallb_blob_refs rp l r _ Hb). f_equal.
+      destruct (im_subject m); cbn; [|reflexivity]. unfold ref_ok. cbn. now rewrite !andb_true_r.
+    - destruct (beqb media MT_INDEX); [|reflexivity].
+      destruct (decode_index data) as [m|]; cbn [option_map]; [|reflexivity].
+      rewrite check_refs_okb. unfold index_refs.
+      rewrite forallb_app, (forallb_man_refs rp l r _ Hm). f_equal.
+      destruct (ix_subject m); cbn; [|reflexivity]. unfold ref_ok. cbn. now rewrite !andb_true_r.
+  Qed.
+
+  (* states with the same repository table, buffers and counter are related to the same
+     reference states *)
+  Lemma rel_ext st st' sp :
+    (forall r, get_repo st r = get_repo st' r) -> bufs st = bufs st' -> next_id st = next_id st' ->
+    Rel st sp -> Rel st' sp.
+  Proof.
+    intros Hg Hb Hn [A B C D E F]. constructor; intros.
+    - rewrite <- A. unfold iblob. now rewrite Hg.
+    - rewrite <- B. unfold iman. now rewrite Hg.
+    - rewrite <- C. unfold itag. now rewrite Hg.
+    - congruence.
+    - congruence.
+    - rewrite <- F. unfold iup. now rewrite Hg.
+  Qed.
+
+  Lemma upd_repo_compose_rel st sp r f g :
+    Rel (upd_repo (upd_repo st r f) r g) sp -> Rel (upd_repo st r (fun rp => g (f rp))) sp.
+  Proof.
+    apply rel_ext.
+    - intros r'. rewrite !get_repo_upd_repo. destruct (beqb r' r) eqn:B; [|reflexivity].
+      rewrite beqb_refl. destruct (get_repo st r); reflexivity.
+    - now rewrite !bufs_upd_repo.
+    - now rewrite !next_upd_repo.
+  Qed.
+
+  Definition mem_store (st1 : state) (r : bytes) (rp : repo) (t data media : bytes) : state * result :=
+    let dig := hash data in
+    let de := {| d_media := media; d_digest := dig; d_size := blen data; d_artifact := [] |} in
+    if immutable_tags cfg
+       && match alookup dig (manifests rp) with
+          | Some cur => negb (beqb (b_media cur) media)
+          | None => false
+          end
+    then (st1, Err (E DENIED (s "mismatched media type")))
+    else
+    match check_descriptor de (Some data) with
+    | Some e => (st1, Err (e_plain (s "invalid descriptor")))
+    | None =>
+        match check_manifest rp media data with
+        | None => (st1, Err (e_plain (s "invalid manifest")))
+        | Some subject =>
+            (upd_repo st1 r (fun rp =>
+               let rp1 := rp_set_manifest dig {| b_media := media; b_data := data; b_subject := subject |} rp in
+               match t with [] => rp1 | _ => rp_set_tag t de rp1 end),
+             Ok (RDesc de))
+        end
+    end.
+
+  Definition spec_store (sp : sstate) (r t data media : bytes) : sstate * result :=
+    let l := slog sp in
+    let dig := hash data in
+    let de := sdesc media dig data in
+    if immutable_tags cfg
+       && match sman l r dig with Some (m, _) => negb (beqb m media) | None => false end
+    then (sp, Err (E DENIED (s "stored under another media type")))
+    else
+    if beqb media [] || negb (valid_digest dig) then (sp, Err (e_plain (s "rejected")))
+    else if negb (acceptable l r media data) then (sp, Err (e_plain (s "rejected")))
+    else
+      let st1 := with_log sp (EvMan r dig (Some (media, data))) in
+      (match t with [] => st1 | _ => with_log st1 (EvTag r t (Some de)) end, Ok (RDesc de)).
+
+  Lemma sim_store st1 sp r rp t data media o :
+    Rel st1 sp -> get_repo st1 r = Some rp -> (forall s, o <> Repositories s) ->
+    step_ok (slog sp) o (mem_store st1 r rp t data media) (spec_store sp r t data media).
+  Proof.
+    intros HR ER Hn. unfold step_ok, mem_store, spec_store. cbn zeta.
+    assert (Hb : forall d, alookup d (blobs rp) = iblob st1 r d) by (intros; unfold iblob; now rewrite ER).
+    assert (Hm : forall d, alookup d (manifests rp) = iman st1 r d) by (intros; unfold iman; now rewrite ER).
+    rewrite <- (rel_man _ _ HR), <- Hm.
+    assert (Hbad : forall what what' : bytes,
+               Rel st1 sp /\ res_ok (slog sp) o (Err (e_plain what)) (Err (e_plain what')) = true).
+    { intros. split; [exact HR | apply res_ok_match; [exact Hn | reflexivity]]. }
+    destruct (immutable_tags cfg && _) eqn:EI.
+    - assert (immutable_tags cfg &&
+              match option_map bmd (alookup (hash data) (manifests rp)) with
+              | Some (m, _) => negb (beqb m media) | None => false end = true) as ->.
+      { destruct (alookup (hash data) (manifests rp)); exact EI. }
+      cbn [fst snd]. split; [exact HR | apply res_ok_match; [exact Hn | reflexivity]].
+    - assert (immutable_tags cfg &&
+              match option_map bmd (alookup (hash data) (manifests rp)) with
+              | Some (m, _) => negb (beqb m media) | None => false end = false) as ->.
+      { destruct (alookup (hash data) (manifests rp)); exact EI. }
+      unfold Mem.check_descriptor. cbn [d_digest d_size d_media].
+      rewrite beqb_refl, Z.eqb_refl. cbn [negb].
+      destruct (valid_digest (hash data)); cbn [negb orb].
+      2:{ rewrite orb_true_r. cbn [fst snd]. apply Hbad. }
+      rewrite orb_false_r. destruct media as [|c m]; [cbn [beqb fst snd]; apply Hbad|]. cbn [beqb].
+      pose proof (check_manifest_acceptable rp (slog sp) r (c :: m) data) as HA.
+      rewrite <- HA.
+      2:{ intros d. rewrite Hb, <- (rel_blob _ _ HR). now destruct (iblob st1 r d). }
+      2:{ intros d. rewrite Hm, <- (rel_man _ _ HR). now destruct (iman st1 r d). }
+      destruct (check_manifest rp (c :: m) data) as [subj|]; cbn [is_some negb fst snd]; [|apply Hbad].
+      split; [|apply desc_ok; exact Hn].
+      assert (Hne : get_repo st1 r <> None) by congruence.
+      pose proof (rel_set_manifest st1 sp r (hash data)
+                    {| b_media := c :: m; b_data := data; b_subject := subj |} HR Hne) as HR2.
+      destruct t as [|c' t'].
+      + exact HR2.
+      + apply upd_repo_compose_rel. apply rel_set_tag; [exact HR2|].
+        rewrite get_repo_upd_repo, beqb_refl, ER. discriminate.
+  Qed.
+
+  Lemma sim_PushManifest st sp r t data media :
+    Rel st sp -> Inv st ->
+    step_ok (slog sp) (PushManifest r t data media)
+      (step st (PushManifest r t data media)) (sstep sp (PushManifest r t data media)).
+  Proof.
+    intros HR HI. set (o := PushManifest r t data media).
+    assert (Hn : forall s, o <> Repositories s) by discriminate.
+    assert (Hm : step st o =
+      match make_repo st r with
+      | None => (st, Err e_name_invalid)
+      | Some st1 =>
+          match get_repo st1 r with
+          | None => (st1, Err e_name_invalid)
+          | Some rp =>
+              match t with
+              | [] => mem_store st1 r rp t data media
+              | _ =>
+                  if negb (valid_tag t) then (st1, Err (e_plain (s "invalid tag")))
+                  else if immutable_tags cfg then
+                    match alookup t (tags rp) with
+                    | Some cur =>
+                        if beqb (hash data) (d_digest cur) then
+                          if beqb (d_media cur) media then (st1, Ok (RDesc cur))
+                          else (st1, Err (E DENIED (s "mismatched media type")))
+                        else (st1, Err (E DENIED (s "cannot overwrite tag")))
+                    | None => mem_store st1 r rp t data media
+                    end
+                  else mem_store st1 r rp t data media
+              end
+          end
+      end) by reflexivity.
+    assert (Hs : sstep sp o =
+      if negb (valid_repo r) then (sp, Err e_name_invalid)
+      else match t with
+           | [] => spec_store sp r t data media
+           | _ =>
+               if negb (valid_tag t) then (sp, Err (e_plain (s "rejected")))
+               else if immutable_tags cfg then
+                 match stag (slog sp) r t with
+                 | Some cur =>
+                     if beqb (hash data) (d_digest cur) && beqb (d_media cur) media then (sp, Ok (RDesc cur))
+                     else (sp, Err (E DENIED (s "tag is immutable")))
+                 | None => spec_store sp r t data media
+                 end
+               else spec_store sp r t data media
+           end) by reflexivity.
+    rewrite Hm, Hs. clear Hm Hs.
+    destruct (make_repo st r) as [st1|] eqn:EMR.
+    - pose proof (make_repo_some _ _ _ _ EMR) as (-> & Hne & _). cbn [negb].
+      pose proof (rel_make_repo _ _ _ _ _ HR EMR) as HR1.
+      destruct (get_repo st1 r) as [rp|] eqn:ER; [|congruence].
+      assert (Hstore : step_ok (slog sp) o (mem_store st1 r rp t data media) (spec_store sp r t data media))
+        by (apply sim_store; auto).
+      destruct t as [|c t']; [exact Hstore|].
+      destruct (valid_tag (c :: t')); cbn [negb];
+        [|split; [exact HR1 | apply res_ok_match; [exact Hn | reflexivity]]].
+      destruct (immutable_tags cfg); [|exact Hstore].
+      pose proof (tag_sim st1 sp r (c :: t') HR1) as HT. rewrite ER in HT. rewrite <- HT.
+      destruct (alookup (c :: t') (tags rp)) as [cur|]; [|exact Hstore].
+      destruct (beqb (hash data) (d_digest cur)); cbn [andb];
+        [|split; [exact HR1 | apply res_ok_match; [exact Hn | reflexivity]]].
+      destruct (beqb (d_media cur) media).
+      + split; [exact HR1 | apply desc_ok; exact Hn].
+      + split; [exact HR1 | apply res_ok_match; [exact Hn | reflexivity]].
+    - apply make_repo_none in EMR. rewrite EMR. cbn [negb].
+      split; [exact HR | apply res_ok_match; [exact Hn | reflexivity]].
+  Qed.
+
+  (* ---- deletes ---- *)
+  Local Notation tagged_refers_to := (tagged_refers_to decode_image decode_index).
+  Local Notation tagged_reaches := (tagged_reaches decode_image decode_index).
+
+  (* the two searches on related states *)
+  Lemma tagged_sim st sp r rp d :
+    Rel st sp -> Inv st -> get_repo st r = Some rp ->
+    match tagged_refers_to rp d, tagged_reaches (slog sp) r d with
+    | Ok b1, Some b2 => b1 = b2
+    | (Err _ | Panic), _ => False
+    | _, _ => True
+    end.
+  Proof.
+    intros HR HI ER. pose proof (inv_repo _ _ _ _ HI _ _ ER) as Hok.
+    pose proof (refers_to_shape decode_image decode_index rp) as Hsh.
+    unfold Mem.tagged_refers_to in *.
+    specialize (Hsh (fun x b Hx => proj1 (proj2 (ok_man _ _ _ _ _ _ Hok x b Hx)))
+                    (S (length (manifests rp))) (tag_refs rp) d).
+    destruct (refers_to decode_image decode_index (S (length (manifests rp))) rp (tag_refs rp) d) as [b1| | |] eqn:E1;
+      try contradiction; [|exact I].
+    destruct (tagged_reaches (slog sp) r d) as [b2|] eqn:E2; [|exact I].
+    eapply (definite_agree decode_image decode_index rp (slog sp) r d b1 b2); eauto.
+    - apply Hok.
+    - intros x. rewrite <- (rel_man _ _ HR). unfold iman. now rewrite ER.
+    - intros t. rewrite <- (rel_tag _ _ HR). unfold itag. now rewrite ER.
+  Qed.
+
+  Lemma sim_DeleteBlob st sp r d :
+    Rel st sp -> Inv st ->
+    definite (snd (step st (DeleteBlob r d))) -> definite (snd (sstep sp (DeleteBlob r d))) ->
+    step_ok (slog sp) (DeleteBlob r d) (step st (DeleteBlob r d)) (sstep sp (DeleteBlob r d)).
+  Proof.
+    intros HR HI. unfold step_ok, definite. cbn [Mem.step MemSpec.sstep].
+    pose proof (blob_for_sim st sp r d HR HI) as H.
+    destruct (blob_for st r d) as [b|e| |]; try contradiction.
+    - destruct H as (-> & _ & Hi). unfold iblob in Hi.
+      destruct (get_repo st r) as [rp|] eqn:ER; [|discriminate].
+      assert (Hdel : Rel (upd_repo st r (rp_del_blob d)) (with_log sp (EvBlob r d None)) /\
+                     res_ok (slog sp) (DeleteBlob r d) (Ok RUnit) (Ok RUnit) = true).
+      { split; [now apply rel_del_blob | apply res_ok_match; [discriminate | reflexivity]]. }
+      destruct (immutable_tags cfg); [|intros _ _; exact Hdel].
+      pose proof (tagged_sim st sp r rp d HR HI ER) as HT.
+      destruct (tagged_refers_to rp d) as [[|]| | |]; destruct (tagged_reaches (slog sp) r d) as [[|]|];
+        cbn [fst snd]; intros D1 D2; try contradiction; try discriminate; try (now elim D1); try (now elim D2).
+      + split; [exact HR | apply res_ok_match; [discriminate | reflexivity]].
+      + exact Hdel.
+    - destruct H as (-> & H). cbn [fst snd]. intros _ _. split; [exact HR|]. apply blob_unknown_cases in H.
+      eapply finish_unknown; [reflexivity | discriminate | apply blob_codes |].
+      eapply unknown_ok; eauto.
+  Qed.
+
+  Lemma sim_DeleteManifest st sp r d :
+    Rel st sp -> Inv st ->
+    definite (snd (step st (DeleteManifest r d))) -> definite (snd (sstep sp (DeleteManifest r d))) ->
+    step_ok (slog sp) (DeleteManifest r d) (step st (DeleteManifest r d)) (sstep sp (DeleteManifest r d)).
+  Proof.
+    intros HR HI. unfold step_ok, definite. cbn [Mem.step MemSpec.sstep].
+    pose proof (manifest_for_sim st sp r d HR HI) as H.
+    destruct (manifest_for st r d) as [b|e| |]; try contradiction.
+    - destruct H as (-> & _ & Hi). unfold iman in Hi.
+      destruct (get_repo st r) as [rp|] eqn:ER; [|discriminate].
+      assert (Hdel : Rel (upd_repo st r (rp_del_manifest d)) (with_log sp (EvMan r d None)) /\
+                     res_ok (slog sp) (DeleteManifest r d) (Ok RUnit) (Ok RUnit) = true).
+      { split; [now apply rel_del_manifest | apply res_ok_match; [discriminate | reflexivity]]. }
+      destruct (immutable_tags cfg); [|intros _ _; exact Hdel].
+      pose proof (tagged_sim st sp r rp d HR HI ER) as HT.
+      destruct (tagged_refers_to rp d) as [[|]| | |]; destruct (tagged_reaches (slog sp) r d) as [[|]|];
+        cbn [fst snd]; intros D1 D2; try contradiction; try discriminate; try (now elim D1); try (now elim D2).
+      + split; [exact HR | apply res_ok_match; [discriminate | reflexivity]].
+      + exact Hdel.
+    - destruct H as (-> & H). cbn [fst snd]. intros _ _. split; [exact HR|]. apply man_unknown_cases in H.
+      eapply finish_unknown; [reflexivity | discriminate | apply man_codes |].
+      eapply unknown_ok; eauto.
+  Qed.
+
+  Lemma sim_DeleteTag st sp r t :
+    Rel st sp -> Inv st -> step_ok (slog sp) (DeleteTag r t) (step st (DeleteTag r t)) (sstep sp (DeleteTag r t)).
+  Proof.
+    intros HR HI. unfold step_ok. cbn [Mem.step MemSpec.sstep].
+    pose proof (tag_sim st sp r t HR) as H.
+    destruct (get_repo st r) as [rp|] eqn:ER.
+    - rewrite <- H. destruct (alookup t (tags rp)) as [de|].
+      + destruct (immutable_tags cfg); cbn [fst snd].
+        * split; [exact HR | apply res_ok_match; [discriminate | reflexivity]].
+        * split; [now apply rel_del_tag | apply res_ok_match; [discriminate | reflexivity]].
+      + cbn [fst snd]. split; [exact HR|].
+        eapply finish_unknown; [reflexivity | discriminate | apply man_codes |].
+        eapply unknown_ok; [exact HR|]. right. split; [reflexivity | congruence].
+    - rewrite H. cbn [fst snd]. split; [exact HR|].
+      eapply finish_unknown; [reflexivity | discriminate | apply man_codes |].
+      eapply unknown_ok; [exact HR|]. left. auto.
+  Qed.
+
+  (* ---- listings ---- *)
+  Lemma alookup_NoDup_In {V} (m : alist V) k v : NoDup (akeys m) -> In (k, v) m -> alookup k m = Some v.
+  Proof.
+    induction m as [|[k0 v0] m IH]; [intros _ []|]. cbn. intros Hnd Hi. inversion Hnd; subst.
+    destruct Hi as [E|Hi].
+    - injection E as -> ->. now rewrite beqb_refl.
+    - destruct (beqb k k0) eqn:B; [|auto]. apply beqb_eq in B. subst.
+      exfalso. apply H1. apply (in_map fst) in Hi. exact Hi.
+  Qed.
+
+  Lemma NoDup_akeys_filter {V} (p : bytes * V -> bool) (m : alist V) :
+    NoDup (akeys m) -> NoDup (akeys (filter p m)).
+  Proof.
+    unfold akeys. induction m as [|kv m IH]; cbn; [auto|]. intros H. inversion H; subst.
+    destruct (p kv); cbn; [|auto]. constructor; [|auto].
+    intros Hi. apply H2. apply in_map_iff in Hi as [kv' [E Hi]]. apply filter_In in Hi as [Hi _].
+    rewrite <- E. now apply in_map.
+  Qed.
+
+  Lemma alist_all_none {V} (m : alist V) : (forall k, alookup k m = None) -> m = [].
+  Proof.
+    destruct m as [|[k v] m]; [reflexivity|]. intros H. specialize (H k). cbn in H.
+    now rewrite beqb_refl in H.
+  Qed.
+
+  Lemma sim_Repositories st sp start :
+    Rel st sp -> Inv st ->
+    step_ok (slog sp) (Repositories start) (step st (Repositories start)) (sstep sp (Repositories start)).
+  Proof.
+    intros HR HI. unfold step_ok. cbn [Mem.step MemSpec.sstep fst snd res_ok]. split; [exact HR|].
+    apply andb_true_iff. split.
+    - apply ssortedb_spec. apply list_after_ssorted. apply HI.
+    - apply (list_eqb_eq beqb beqb_eq). apply ssorted_unique.
+      + apply ssorted_filter. apply list_after_ssorted. apply HI.
+      + apply list_after_ssorted. apply repo_keys_NoDup.
+      + intros a. rewrite filter_In, !list_after_In, repo_keys_In. split.
+        * intros [[_ Hlt] Hc]. auto.
+        * intros [Hc Hlt]. repeat split; auto.
+          pose proof (has_content_repo _ _ _ HR Hc) as Hne. unfold get_repo in Hne.
+          destruct (alookup a (repos st)) eqn:E; [|congruence]. eapply alookup_Some_in; eauto.
+  Qed.
+
+  Lemma sim_Tags st sp r start :
+    Rel st sp -> Inv st -> step_ok (slog sp) (Tags r start) (step st (Tags r start)) (sstep sp (Tags r start)).
+  Proof.
+    intros HR HI. unfold step_ok. cbn [Mem.step MemSpec.sstep fst snd]. split; [exact HR|].
+    destruct (get_repo st r) as [rp|] eqn:ER.
+    - assert (HT : forall t, alookup t (tags rp) = stag (slog sp) r t).
+      { intros t. rewrite <- (rel_tag _ _ HR). unfold itag. now rewrite ER. }
+      destruct (has_content (slog sp) r) eqn:EC.
+      + apply res_ok_match; [discriminate|].
+        replace (list_after start (akeys (tags rp))) with (list_after start (tag_keys (slog sp) r));
+          [apply result_match_refl; discriminate|].
+        apply ssorted_unique.
+        * apply list_after_ssorted. apply tag_keys_NoDup.
+        * apply list_after_ssorted. apply (inv_repo _ _ _ _ HI _ _ ER).
+        * intros a. rewrite !list_after_In, tag_keys_In, <- HT. split; intros [H1 H2]; split; auto.
+          -- destruct (alookup a (tags rp)) eqn:E; [|congruence]. eapply alookup_Some_in; eauto.
+          -- apply In_akeys_lookup in H1 as [v ->]. discriminate.
+      + pose proof (has_content_false _ _ EC) as (_ & _ & ET).
+        assert (tags rp = []) as -> by (apply alist_all_none; intros k; now rewrite HT).
+        unfold res_ok. apply orb_true_iff. right. unfold slack. cbn [op_repo]. now rewrite EC.
+    - rewrite (rel_repo_none _ _ _ HR ER). apply res_ok_match; [discriminate | reflexivity].
+  Qed.
+
+  (* sorting descriptors by digest is sorting their digests *)
+  Lemma dinsert_map (F : bytes -> desc) a L :
+    (forall k, In k (a :: L) -> d_digest (F k) = k) ->
+    dinsert (F a) (map F L) = map F (binsert a L).
+  Proof.
+    intros HF. induction L as [|b L IH]; cbn [map dinsert binsert]; [reflexivity|].
+    rewrite (HF a), (HF b) by (cbn; auto). destruct (bleb a b); [reflexivity|].
+    cbn [map]. f_equal. apply IH. intros k [<-|Hk]; apply HF; cbn; auto.
+  Qed.
+
+  Lemma dsort_map (F : bytes -> desc) K :
+    (forall k, In k K -> d_digest (F k) = k) -> dsort (map F K) = map F (bsort K).
+  Proof.
+    induction K as [|a K IH]; intros HF; cbn [map dsort bsort]; [reflexivity|].
+    rewrite IH by (intros; apply HF; now right).
+    apply dinsert_map. intros k [<-|Hk]; apply HF; [now left | right; now apply bsort_In].
+  Qed.
+
+  Local Notation subject_of := (subject_of decode_image decode_index).
+
+  Lemma sim_Referrers st sp r d art :
+    Rel st sp -> Inv st ->
+    step_ok (slog sp) (Referrers r d art) (step st (Referrers r d art)) (sstep sp (Referrers r d art)).
+  Proof.
+    intros HR HI. unfold step_ok. cbn [Mem.step MemSpec.sstep fst snd]. split; [exact HR|].
+    destruct (get_repo st r) as [rp|] eqn:ER.
+    2:{ rewrite (rel_repo_none _ _ _ HR ER). apply res_ok_match; [discriminate | reflexivity]. }
+    pose proof (inv_repo _ _ _ _ HI _ _ ER) as Hok.
+    assert (HM : forall k, sman (slog sp) r k = option_map bmd (alookup k (manifests rp))).
+    { intros k. rewrite <- (rel_man _ _ HR). unfold iman. now rewrite ER. }
+    destruct (has_content (slog sp) r) eqn:EC.
+    2:{ pose proof (has_content_false _ _ EC) as (_ & EMn & _).
+        assert (manifests rp = []) as ->.
+        { apply alist_all_none. intros k. specialize (EMn k). rewrite HM in EMn.
+          now destruct (alookup k (manifests rp)). }
+        unfold res_ok. apply orb_true_iff. right. unfold slack. cbn [op_repo]. now rewrite EC. }
+    apply res_ok_match; [discriminate|].
+    set (M := manifests rp) in *.
+    set (p := fun kv : bytes * blob => beqb (b_subject (snd kv)) d).
+    set (F := fun k => match alookup k M with Some b => blob_desc b | None => zero_desc end).
+    set (ks := filter _ (man_keys (slog sp) r)).
+    assert (HF : forall k b, alookup k M = Some b ->
+                   F k = blob_desc b /\ hash (b_data b) = k /\ b_subject b = subject_of (b_media b) (b_data b)).
+    { intros k b Hk. unfold F. rewrite Hk. destruct (ok_man _ _ _ _ _ _ Hok k b Hk) as (Hh & _ & Hs). auto. }
+    (* the implementation's list, as the sorted matching keys mapped through the store *)
+    assert (H1 : map (fun kv => blob_desc (snd kv)) (filter p M) = map F (akeys (filter p M))).
+    { unfold akeys. rewrite map_map. apply map_ext_in. intros [k b] Hi. cbn.
+      apply filter_In in Hi as [Hi _]. apply (alookup_NoDup_In M k b (ok_mkeys _ _ _ _ _ _ Hok)) in Hi.
+      symmetry. now apply HF. }
+    rewrite H1, dsort_map.
+    2:{ intros k Hk. apply in_map_iff in Hk as [[k' b] [E Hi]]. cbn in E. subst k'.
+        apply filter_In in Hi as [Hi _]. apply (alookup_NoDup_In M k b (ok_mkeys _ _ _ _ _ _ Hok)) in Hi.
+        destruct (HF _ _ Hi) as (-> & Hh & _). exact Hh. }
+    assert (H2 : bsort (akeys (filter p M)) = bsort ks).
+    { apply ssorted_unique.
+      - apply bsort_ssorted. apply NoDup_akeys_filter. apply Hok.
+      - apply bsort_ssorted. apply NoDup_filter. apply man_keys_NoDup.
+      - intros k. rewrite !bsort_In. unfold ks. rewrite filter_In, man_keys_In, HM. split.
+        + intros Hk. apply in_map_iff in Hk as [[k' b] [E Hi]]. cbn in E. subst k'.
+          apply filter_In in Hi as [Hi Hp].
+          apply (alookup_NoDup_In M k b (ok_mkeys _ _ _ _ _ _ Hok)) in Hi. fold M. rewrite Hi. cbn.
+          split; [discriminate|]. destruct (HF _ _ Hi) as (_ & _ & <-). exact Hp.
+        + fold M. intros [_ Hk]. destruct (alookup k M) as [b|] eqn:E; [|discriminate]. cbn in Hk.
+          apply in_map_iff. exists (k, b). split; [reflexivity|]. apply filter_In.
+          split; [now apply alookup_In|]. unfold p. cbn. destruct (HF _ _ E) as (_ & _ & ->). exact Hk. }
+    rewrite H2.
+    assert (H3 : forall L, (forall k, In k L -> In k ks) ->
+               flat_map (fun k => match sman (slog sp) r k with
+                                  | Some (m, data) => [sdesc m k data] | None => [] end) L = map F L).
+    { induction L as [|k L IH]; intros HL; cbn [flat_map map]; [reflexivity|].
+      rewrite IH by (intros; apply HL; now right). f_equal.
+      assert (Hk : In k ks) by (apply HL; now left). unfold ks in Hk.
+      apply filter_In in Hk as [Hk _]. apply man_keys_In in Hk. rewrite HM in *. fold M in Hk |- *.
+      destruct (alookup k M) as [b|] eqn:E; [|now elim Hk]. cbn.
+      destruct (HF _ _ E) as (-> & Hh & _). now rewrite (blob_desc_sdesc b k Hh). }
+    rewrite H3 by (intros k Hk; apply (bsort_In k ks); exact Hk).
+    apply result_match_refl. discriminate.
+  Qed.
+
+  (* ---- BlobWriter operations ---- *)
+  Lemma sim_writer st sp o w :
+    Rel st sp -> (forall s, o <> Repositories s) ->
+    forall (f : buffer -> state * result) (g : buffer -> sstate * result),
+      (forall b, nth_error (bufs st) (N.to_nat w) = Some b -> step_ok (slog sp) o (f b) (g b)) ->
+      step_ok (slog sp) o
+        (match nth_error (bufs st) (N.to_nat w) with None => (st, Err no_writer) | Some b => f b end)
+        (match nth_error (sbufs sp) (N.to_nat w) with
+         | None => (sp, Err (e_plain (s "no such writer"))) | Some b => g b end).
+  Proof.
+    intros HR Hn f g H. rewrite <- (rel_bufs _ _ HR).
+    destruct (nth_error (bufs st) (N.to_nat w)) as [b|]; [now apply H|].
+    split; [exact HR | apply res_ok_match; [exact Hn | reflexivity]].
+  Qed.
+
+  Lemma sim_WWrite st sp w data :
+    Rel st sp -> Inv st -> step_ok (slog sp) (WWrite w data) (step st (WWrite w data)) (sstep sp (WWrite w data)).
+  Proof.
+    intros HR HI. cbn [Mem.step MemSpec.sstep]. apply sim_writer; [exact HR | discriminate|].
+    intros b _. destruct (negb (u_check b =? -1)%Z && negb (blen (u_buf b) =? u_check b)%Z).
+    - split; [exact HR | apply res_ok_match; [discriminate | reflexivity]].
+    - split; [now apply rel_with_buf | apply res_ok_match; [discriminate | apply result_match_refl; discriminate]].
+  Qed.
+
+  Lemma sim_WCancel st sp w :
+    Rel st sp -> Inv st -> step_ok (slog sp) (WCancel w) (step st (WCancel w)) (sstep sp (WCancel w)).
+  Proof.
+    intros HR HI. cbn [Mem.step MemSpec.sstep]. apply sim_writer; [exact HR | discriminate|].
+    intros b _. split; [now apply rel_with_buf | apply res_ok_match; [discriminate | reflexivity]].
+  Qed.
+
+  Lemma sim_WCommit st sp w d :
+    Rel st sp -> Inv st -> step_ok (slog sp) (WCommit w d) (step st (WCommit w d)) (sstep sp (WCommit w d)).
+  Proof.
+    intros HR HI. cbn [Mem.step MemSpec.sstep]. apply sim_writer; [exact HR | discriminate|].
+    intros b Hb. destruct (u_err b) as [e|].
+    - split; [exact HR | apply res_ok_match; [discriminate | apply result_match_refl; discriminate]].
+    - destruct (beqb (hash (u_buf b)) d).
+      + split; [|apply desc_ok; discriminate]. cbn [fst].
+        apply (rel_set_blob _ _ (u_repo b) d {| b_media := MT_OCTET; b_data := u_buf b; b_subject := [] |}).
+        * now apply rel_with_buf.
+        * apply (inv_buf _ _ _ _ HI _ _ Hb).
+      + split; [now apply rel_with_buf | apply res_ok_match; [discriminate | reflexivity]].
+  Qed.
+
+  Lemma sim_reader st sp o w (k : buffer -> result) :
+    Rel st sp -> (forall s, o <> Repositories s) -> (forall b, definite (k b)) ->
+    step_ok (slog sp) o
+      (st, match nth_error (bufs st) (N.to_nat w) with None => Err no_writer | Some b => k b end)
+      (sp, match nth_error (sbufs sp) (N.to_nat w) with
+           | None => Err (e_plain (s "no such writer")) | Some b => k b end).
+  Proof.
+    intros HR Hn Hk. rewrite <- (rel_bufs _ _ HR). split; [exact HR|]. cbn [snd].
+    apply res_ok_match; [exact Hn|].
+    destruct (nth_error (bufs st) (N.to_nat w)); [apply result_match_refl; apply Hk | reflexivity].
+  Qed.
+
+  (* ---- every operation ---- *)
+  Theorem sim_step st sp o :
+    Rel st sp -> Inv st ->
+    (fuelled o = true -> definite (snd (step st o)) /\ definite (snd (sstep sp o))) ->
+    step_ok (slog sp) o (step st o) (sstep sp o).
+  Proof.
+    intros HR HI D. destruct o; try (destruct (D eq_refl) as [D1 D2]).
+    - now apply sim_GetBlob.
+    - now apply sim_GetBlobRange.
+    - now apply sim_GetManifest.
+    - now apply sim_GetTag.
+    - now apply sim_ResolveBlob.
+    - now apply sim_ResolveManifest.
+    - now apply sim_ResolveTag.
+    - now apply sim_PushBlob.
+    - now apply sim_PushBlobChunked.
+    - now apply sim_PushBlobChunkedResume.
+    - now apply sim_MountBlob.
+    - now apply sim_PushManifest.
+    - now apply sim_DeleteBlob.
+    - now apply sim_DeleteManifest.
+    - now apply sim_DeleteTag.
+    - now apply sim_Repositories.
+    - now apply sim_Tags.
+    - now apply sim_Referrers.
+    - now apply sim_WWrite.
+    - apply (sim_reader st sp (WClose w) w (fun _ => Ok RUnit)); [auto | discriminate | discriminate].
+    - apply (sim_reader st sp (WSize w) w (fun b => Ok (RN (blen (u_buf b))))); [auto | discriminate | discriminate].
+    - apply (sim_reader st sp (WChunkSize w) w (fun b => Ok (RN 8192))); [auto | discriminate | discriminate].
+    - apply (sim_reader st sp (WID w) w (fun b => Ok (RStr (u_id b)))); [auto | discriminate | discriminate].
+    - now apply sim_WCommit.
+    - now apply sim_WCancel.
+  Qed.
+End Refine.
